@@ -10,3 +10,6 @@ def run(ctx):
     # this property with every anchored line untouched
     from .restate import restate_f64_primitives
     restate_f64_primitives(ctx, [lambda: ctx.roles.decompose()], "the decomposition")
+    # the signature (and table) these formulas read are the ones the caller handed to build_sampler (restated from C05-b)
+    from .restate import restate_sampler_is_callers
+    restate_sampler_is_callers(ctx)
